@@ -191,6 +191,14 @@ Definition cpp_size_case (t : ty) (v : value) (obs : Z) : list Z :=
   else if negb (obs =? cpp_size t v) then [90; cpp_size t v]
   else [].
 
+(* C03: obs = bytes the compiled generated encoder produced for the object decoded from the canonical
+   bytes of v; they must be the canonical bytes (the property) and what the generator/run-time model
+   cpp_encode yields (tie of the C03 theorem) *)
+Definition cpp_enc_case (e : endian) (t : ty) (v : value) (obs : bytes) : list Z :=
+  if negb (beq obs (wire e t v)) then [93; len (wire e t v)]
+  else if negb (beq obs (cpp_encode e t v)) then [92; len (cpp_encode e t v)]
+  else [].
+
 From Prophy Require Import ApiSpec.
 
 (* C10 / C11: a history of API operations on two fresh messages; obs = per step
